@@ -127,12 +127,14 @@ Fixpoint restore_all (l : list ent) (mm : mem) : mem :=
   | [] => mm
   | e :: r => restore_all r (if is_tramp (e_ip e) then mm else upd mm (e_loc e) (e_ip e))
   end.
-(* mcount_rstack_rehook: from the top down, *parent_loc = the trampoline of the entry's kind *)
-Fixpoint rehook_all (l : list ent) (mm : mem) : mem :=
+(* mcount_rstack_rehook (since /repo fix C01-9: oldest entry first): *parent_loc = the trampoline of the
+   entry's kind; the entries of a tail-call chain share one slot, which ends up with the NEWEST one's *)
+Fixpoint rehook_from (l : list ent) (mm : mem) : mem :=
   match l with
   | [] => mm
-  | e :: r => rehook_all r (upd mm (e_loc e) (tramp_of (e_plt e)))
+  | e :: r => rehook_from r (upd mm (e_loc e) (tramp_of (e_plt e)))
   end.
+Definition rehook_all (l : list ent) (mm : mem) : mem := rehook_from (rev l) mm.
 (* the walk of mcount_auto_restore: first entry (downwards) whose parent_ip is not a trampoline *)
 Fixpoint restore_first (l : list ent) (mm : mem) : mem :=
   match l with
@@ -424,7 +426,6 @@ Definition expect := option (N * N).
      - a traced function entered while in_exception hands a frame address that does not separate
        dropped from live frames (e.g. -mfentry: the word below the slot is not a frame pointer);
      - tail calls while in_exception; setjmp / longjmp / nested throw while an exception is in flight;
-     - tail-call chains mixing PLT and mcount kinds;
      - _Unwind_RaiseException called through the PLT of the traced module.                         *)
 Definition rstep (st : rstk) (o : op) : option (rstk * expect) :=
   match o with
@@ -476,7 +477,6 @@ Definition rstep (st : rstk) (o : op) : option (rstk * expect) :=
       match frames st with
       | f :: rest =>
           if (f_slot f =? s) && negb (exc st) && (negb (flight st) || (0 <? extra st))
-             && all_homogeneous false (f_pend f)
           then Some (bump (mk st (fresh st s (f_ra f) (false :: f_pend f) :: rest)
                               (flight st) false (extra st) (stale st)), None)
           else None
@@ -486,7 +486,6 @@ Definition rstep (st : rstk) (o : op) : option (rstk * expect) :=
       match frames st with
       | f :: rest =>
           if (f_slot f =? s) && negb (exc st) && (negb (flight st) || (0 <? extra st))
-             && all_homogeneous true (f_pend f)
           then Some (bump (mk st (fresh st s (f_ra f) (true :: f_pend f) :: rest)
                               (flight st) false (extra st) (stale st)), None)
           else None
